@@ -10,8 +10,10 @@
          key, subkey = split(key);  x = predicted.sample_flat(subkey)
 
    sample_flat = mean + cholesky @ base with base ~ normal(shape):
-     dense      base (N,)            -> z : N x 1
-     isotropic  base (n,), (L z)[:, None] broadcast to all d columns
+     dense      base (N,)       -> z : N x 1
+     isotropic  base (n, d)     -> z : n x d, one independent column per state
+                                   dimension (since the repair 3219804; before, ONE
+                                   draw of length n was broadcast to all d columns)
      blockdiag  base (d, n): row a is the draw of block a -> per block z : n x 1.
    The Cholesky factor of [predicted] (|to_observed| * noise.cholesky) is an INPUT of
    the model: any matrix L (the theorems assume L L^T = to Q to).  The base
@@ -30,12 +32,9 @@ Section Sample.
   Local Notation cond := (@cond F).
   Local Notation normal := (@normal F).
 
-  (* v[:, None]: a column applied to all c columns (c = 1: the column itself) *)
-  Definition bcast (n c : nat) (v : mat) : mat := mk n c (fun i _ => mget v i 0).
-
-  (* Normal.sample_flat: mean + (L z)[:, None];  mean n x c, L n x n, z n x 1 *)
+  (* Normal.sample_flat: mean + L z;  mean n x c, L n x n, z n x c *)
   Definition n_sample (n c : nat) (mean L z : mat) : mat :=
-    madd n c mean (bcast n c (mmul n n 1 L z)).
+    madd n c mean (mmul n n c L z).
 
   (* body of the scan *)
   Definition sample_step (n c : nat) (K : cond) (L z x : mat) : mat :=
@@ -108,11 +107,11 @@ Section Sample.
   Definition c_nooff (n c : nat) (K : cond) : cond :=
     mkC (c_A K) (mzero n c) (c_Q K) (c_tl K) (c_to K).
 
-  (* sum_t W_t z_t  (n x 1)  and  sum_t W_t V_t^T  (n x n) over zipped lists *)
-  Fixpoint wsum (n : nat) (ws zs : list mat) : mat :=
+  (* sum_t W_t z_t  (n x c)  and  sum_t W_t V_t^T  (n x n) over zipped lists *)
+  Fixpoint wsum (n c : nat) (ws zs : list mat) : mat :=
     match ws, zs with
-    | W :: ws', z :: zs' => madd n 1 (mmul n n 1 W z) (wsum n ws' zs')
-    | _, _ => mzero n 1
+    | W :: ws', z :: zs' => madd n c (mmul n n c W z) (wsum n c ws' zs')
+    | _, _ => mzero n c
     end.
   Fixpoint cross_sum (n : nat) (ws vs : list mat) : mat :=
     match ws, vs with
@@ -150,13 +149,15 @@ Section Sample.
     | _, _ => []
     end.
   (* all draws zero *)
-  Definition zeros_like (n : nat) (zs : list mat) : list mat := map (fun _ => mzero n 1) zs.
+  Definition zeros_like (n c : nat) (zs : list mat) : list mat := map (fun _ => mzero n c) zs.
   (* draws seen by forward sample k, newest first: [z_k; ...; z_0] *)
   Fixpoint fwd_draws (zr : list mat) (zs : list mat) : list (list mat) :=
     match zs with
     | [] => []
     | z :: r => (z :: zr) :: fwd_draws (z :: zr) r
     end.
-  (* l-th unit draw *)
-  Definition unit_col (n l : nat) : mat := mk n 1 (fun i _ => delta i l).
+  (* unit draw: entry (l, b) is one, all others zero *)
+  Definition unit_draw (n c l b : nat) : mat := mk n c (fun i a => delta i l * delta a b).
+  (* column a of a draw / sample as an n x 1 matrix *)
+  Definition mcol (n a : nat) (z : mat) : mat := mk n 1 (fun i _ => mget z i a).
 End Sample.
